@@ -731,6 +731,12 @@ func (x *Exec) load(st *State, in ssa.Instruction, addr Val, t types.Type) Val {
 			x.fail("load through object pointer viewed as unsafe.Pointer")
 		}
 		x.safety(st, in, "nil", Not(Eq(p.Reg, e.ar.IConst(0))), "pointer is non-nil")
+		if p.Orig != nil && isByteSlice(p.Orig) && isString(t) && !p.ByteView {
+			// *(*string)(unsafe.Pointer(&b)) with b an escaping []byte: the slice header read as a string header
+			if sl, ok := st.loadElem(p.Orig, p.Reg, p.Idx).(VSlice); ok {
+				return VString{Reg: sl.Reg, Arr: st.regionArr(byteType, sl.Reg), Off: sl.Off, Len: sl.Len}
+			}
+		}
 		v := x.loadTyped(st, in, p, t)
 		st.assume(x.wf(st, t, v))
 		return v
@@ -1207,6 +1213,13 @@ func (x *Exec) next(st *State, v *ssa.Next) Val {
 		vv = VScalar{False}
 	}
 	x.e.assumptions["range over a map is an arbitrary number of iterations over arbitrary entries (map contents are not modelled)"] = true
+	// the one thing that is known: an empty (or nil) map yields nothing
+	if it, isTup := x.val(st, v.Iter).(VTuple); isTup && len(it.F) == 1 {
+		if mr, isRef := it.F[0].(VRef); isRef {
+			ml := SelectD(st.heapGet("MapLen", x.e.fldSort(x.e.ar.I())), mr.T)
+			st.assume(Implies(ok.T, x.e.ar.Cmp(token.GTR, tInt, ml, x.e.ar.IConst(0))))
+		}
+	}
 	return VTuple{[]Val{ok, kv, vv}}
 }
 
@@ -1408,6 +1421,10 @@ func (x *Exec) loopSpec(fr *Frame, h *loopHdr) *LoopSpec {
 func (x *Exec) loopEnter(st *State, fr *Frame, h *loopHdr) bool {
 	e := x.e
 	ls := x.loopSpec(fr, h)
+	if ls != nil && ls.Never {
+		// the body is claimed unreachable: nothing is havocked; reaching the back edge is an obligation
+		return true
+	}
 	env := x.envAt(st, fr)
 	base := fmt.Sprintf("%s/loop%d", x.qname, h.ord)
 	if fr.parent != nil {
@@ -1484,6 +1501,11 @@ func (x *Exec) loopBack(st *State, fr *Frame, h *loopHdr) {
 	e := x.e
 	ls := x.loopSpec(fr, h)
 	if ls == nil {
+		return
+	}
+	if ls.Never {
+		x.oblige(st, fmt.Sprintf("%s/loop%d/never", x.qname, h.ord), "inv-step", False, "the loop never iterates (declared `never`)", x.posOf(nil), nil)
+		st.dead = true
 		return
 	}
 	env := x.envAt(st, fr)
